@@ -41,13 +41,48 @@ package interpreter
 //@ typenum Word256Value: big(self.BigInt)
 //@ typeinv Word256Value: self.BigInt != nil && inrange(big(self.BigInt), 0, pow2(256)-1)
 
-//@ schema sint_big(T=Int128Value, N=Int128, min=-pow2(127), max=pow2(127)-1)
-//@ schema sint_big(T=Int256Value, N=Int256, min=-pow2(255), max=pow2(255)-1)
-//@ schema uint_big(T=UInt128Value, N=UInt128, max=pow2(128)-1)
-//@ schema uint_big(T=UInt256Value, N=UInt256, max=pow2(256)-1)
-//@ schema word_big(T=Word128Value, N=Word128, bits=128)
-//@ schema word_big(T=Word256Value, N=Word256, bits=256)
+//@ schema sint_big(T=Int128Value, N=Int128, min=-pow2(127), max=pow2(127)-1, LEM=L_words_128(num(result)))
+//@ schema sint_big(T=Int256Value, N=Int256, min=-pow2(255), max=pow2(255)-1, LEM=L_words_256(num(result)))
+//@ schema uint_big(T=UInt128Value, N=UInt128, max=pow2(128)-1, LEM=L_words_128(num(result)))
+//@ schema uint_big(T=UInt256Value, N=UInt256, max=pow2(256)-1, LEM=L_words_256(num(result)))
+//@ schema word_big(T=Word128Value, N=Word128, bits=128, LEM=L_words_128(num(result)))
+//@ schema word_big(T=Word256Value, N=Word256, bits=256, LEM=L_words_256(num(result)))
 //@ func NewInt128ValueFromInt64
 //@   inline
 //@ func NewInt256ValueFromInt64
 //@   inline
+
+// ---- arbitrary-precision Int and UInt (C11, C13, C18, C32)
+//@ typenum IntValue: num(self.IntValue)
+//@ typeinv IntValue: valid(self.IntValue)
+//@ typenum UIntValue: big(self.BigInt)
+//@ typeinv UIntValue: self.BigInt != nil && big(self.BigInt) >= 0
+//@ func NewUIntValueFromBigInt
+//@   inline
+//@ func NewUnmeteredUIntValueFromBigInt
+//@   inline
+//@ schema binop_unbounded(T=IntValue, M=Plus, E=a + b, R=exact, DZ=false, NEG=false, GUARD=true, P=C11)
+//@ schema binop_unbounded(T=IntValue, M=Minus, E=a - b, R=exact, DZ=false, NEG=false, GUARD=true, P=C11)
+//@ schema binop_unbounded(T=IntValue, M=Mul, E=a * b, R=exact, DZ=false, NEG=false, GUARD=true, P=C11)
+//@ schema binop_unbounded(T=IntValue, M=Div, E=tdiv(a, b), R=exact, DZ=b == 0, NEG=false, GUARD=words(b) < 100, P=C11)
+//@ schema binop_unbounded(T=IntValue, M=Mod, E=trem(a, b), R=exact, DZ=b == 0, NEG=false, GUARD=true, P=C11)
+//@ schema binop_unbounded(T=UIntValue, M=Plus, E=a + b, R=exact, DZ=false, NEG=false, GUARD=true, P=C11)
+//@ schema binop_unbounded(T=UIntValue, M=Minus, E=a - b, R=exact, DZ=false, NEG=exact < 0, GUARD=true, P=C11)
+//@ schema binop_unbounded(T=UIntValue, M=Mul, E=a * b, R=exact, DZ=false, NEG=false, GUARD=true, P=C11)
+//@ schema binop_unbounded(T=UIntValue, M=Div, E=tdiv(a, b), R=exact, DZ=b == 0, NEG=false, GUARD=words(b) < 100, P=C11)
+//@ schema binop_unbounded(T=UIntValue, M=Mod, E=trem(a, b), R=exact, DZ=b == 0, NEG=false, GUARD=true, P=C11)
+//@ schema binop_unbounded(T=UIntValue, M=SaturatingMinus, E=a - b, R=max(exact, 0), DZ=false, NEG=false, GUARD=true, P=C13)
+//@ func (IntValue).Negate
+//@   requires valid(v)
+//@   nofail
+//@   env MemoryMeteringError ComputationMeteringError
+//@   modifies ghost("metered")
+//@   ensures[C11] kind(result) == IntValue && num(result) == -num(v) && valid(result)
+//@   ensures[C32] context != nil ==> ghost("metered") >= 8 * words(num(result))
+//@ func (UIntValue).compare
+//@   requires valid(v) && valid(o)
+//@   nofail
+//@   env ComputationMeteringError
+//@   ensures[C18] result == ite(num(v) < num(o), -1, ite(num(v) > num(o), 1, 0))
+//@ schema cmp_env(T=IntValue, P=C18)
+//@ schema cmp_env(T=UIntValue, P=C18)
